@@ -146,6 +146,7 @@ func loadModule(repo, name string) (*Prog, error) {
 		}
 		return a.Pos() < b.Pos()
 	})
+	discoverFnRoles(p)
 	return p, nil
 }
 
@@ -211,7 +212,7 @@ func fnName(fn *ssa.Function) string {
 	if fn == nil {
 		return "<nil>"
 	}
-	return fn.String()
+	return canonFnString(fn)
 }
 
 // shortName strips the module path prefix for readable reports.
